@@ -789,6 +789,15 @@ def check_C04(tier, nproc=None):
                 if tr and dp >= nd:
                     continue
                 c.add(Job('vH_FP_round', [('int', nd), ('int', dp), ('bool', tr)], pkg=FP, weight=100, opts={'scanvalue': True, 'nsamples': 1}))
+    # tier 1b / 5c-b: the exponent part for EVERY exponent digit string: concrete mantissa, free exponent digits, through
+    # the scanner and through decimal.set (exact, or capped on the same side of the consumer's range as the true value)
+    XT = [[b'1e', (5, D)], [b'12.5E-', (6, D)], [b'-0.001e+', (4, D)], [b'0.0e', (3, D)], [b'1234567890123456789012.5e-', (3, D)],
+          [b'9' * 26 + b'e', (5, D)], [b'5E', (1, D), b'0', (3, D)], [b'-7.25e-', (5, D)], [b'0.000000000000000000000000000001e', (4, D)]]
+    if tier != 'quick':
+        XT += [[b'1e', (6, D)], [b'1E-', (6, D)], [b'123456789.123456789e+', (6, D)], [b'9' * 810 + b'e-', (4, D)], [b'0.' + b'0' * 400 + b'25e', (4, D)],
+               [b'-1' + b'0' * 30 + b'.5E-', (5, D)], [b'4e-00', (4, D)], [b'2.5e+0', (5, D)]]
+    for t in XT:
+        c.add(Job('vH_FP_expo', [('tmpl', 'd', t)], pkg=FP, weight=300, opts={'scanvalue': True, 'nsamples': 2, 'ex.ite_merging': False}))
     # tier 5f: the digit buffer holds every exact halfway point (else decimal.set drops digits of a tie, sets trunc, and the
     # tie is rounded up instead of to even): for every binade, every even mantissa -- one integer inequality per binade
     e2s = [-1074, -1073, -1060, -1022, -1000, -800, -537, -300, -100, -53, -1, 0, 1, 52, 500, 971] if tier == 'quick' else list(range(-1074, 972))
@@ -806,17 +815,18 @@ def check_C04(tier, nproc=None):
                 'fallback_early_exit_templates': [_tmplstr(t) for t in S5],
                 'decimal_set_templates': [_tmplstr(t) for t in S6],
                 'floatbits_abstract_decimal_templates': [_tmplstr(t) for t in S7],
+                'exponent_templates (every exponent digit string)': [_tmplstr(t) if len(_tmplstr(t)) < 60 else _tmplstr(t)[:20] + '...' + _tmplstr(t)[-16:] for t in XT],
                 'halfway_points_fit_the_digit_buffer': 'for binades with ulp 2^e2, e2 in %s: every even mantissa below 2^53 (one integer inequality each; the buffer length is read from the code)' % ('-1074..971' if tier != 'quick' else e2s),
                 'rounded_integer_unit': 'RoundedInteger on every normalised decimal of 1..%d digits, decimal point 0..nd+2, truncation flag both ways (truncated only with a fractional last digit)' % (3 if tier == 'quick' else 5),
                 'exact_path': 'atof64exact for every decimal exponent -26..41, both signs, every 64-bit mantissa',
                 'eisel_lemire': 'every one of the 696 table rows x every 64-bit mantissa with 0 leading zeros; leading-zero counts %s on %s rows; negative sign on the same rows' % (extra_clz, 'every 58th' if tier == 'quick' else 'all')}
-    c.must_reach = ['C04.scan-returned', 'C04.scan-ok', 'C04.el-returned', 'C04.el-ok', 'C04.exact-returned', 'C04.exact-ok', 'C04.glue-returned', 'C04.glue-ok', 'C04.api-number', 'C04.shift-done', 'C04.slow-returned', 'C04.set-returned', 'C04.round-done', 'C04.absbits-returned', 'C04.absbits-finite', 'C04.halfway-posed']
+    c.must_reach = ['C04.scan-returned', 'C04.scan-ok', 'C04.el-returned', 'C04.el-ok', 'C04.exact-returned', 'C04.exact-ok', 'C04.glue-returned', 'C04.glue-ok', 'C04.api-number', 'C04.shift-done', 'C04.slow-returned', 'C04.set-returned', 'C04.round-done', 'C04.absbits-returned', 'C04.absbits-finite', 'C04.halfway-posed', 'C04.expo-scanned']
     _std(c, ['R-ROUND (engine/gosym/fpspec.py): nearest binary64 with ties to even, as linear integer inequalities per exponent field; validated natively with math/big in replays',
              'math/bits.Mul64 and LeadingZeros64 are exact term-level intrinsics',
              'tier 4: eiselLemire64 replaced by its contract (free ok; when ok the result is rnd(man*10^exp), tier 3); atof64exact runs for real in the exact-rational model; f2 == fUp implies every value between the two bounds rounds to f2 (monotonicity of rounding, meta-argument)',
              'tier 2: each IEEE-754 operation on exactly known operands returns rnd(exact result) (the standard\'s definition); comparisons with constants are translated to the un-rounded value by rounding midpoints; an intermediate is taken as exact only when the solver proves it is an integer <= 2^53 on the path, otherwise the double rounding is decided with R-ROUND'])
     c.outside = ['of the multi-precision fallback: the units leftShift (operands up to %d digits, every shift count of the tier), rightShift (shift counts %s, up to %d digits), RoundedInteger (up to %d digits) and decimal.set (templates, across the 800-digit buffer) are established on their own, and floatBits is run for real over an abstract decimal whose Shift / RoundedInteger follow those contracts (tier 5e templates). NOT established: the units on operands longer than stated (so the composition rests on "the unit contracts hold for every operand length"), and the interplay of truncation beyond 800 digits with rounding (an abstract decimal is exact)' % (nds[-1], '%d..%d' % (rks[0], rks[-1]), rnds[-1], 3 if tier == 'quick' else 5),
-                 'tier 4 uses the CONTRACT of the multi-precision fallback (returns the correctly rounded literal, overflow flag exact) as an assumption; literals with symbolic exponent digits are outside the glue templates',
+                 'tier 4 uses the CONTRACT of the multi-precision fallback (returns the correctly rounded literal, overflow flag exact) as an assumption; literals with symbolic exponent digits are outside the glue templates (the exponent accumulation of the scanner and of decimal.set is decided separately for every exponent digit string of the exponent templates)',
                  'the multi-precision decimal fallback (decimal.set, floatBits, shifts): literals with more than 19 significant digits whose bounds disagree, exact halfway cases, exponents beyond +-347, subnormal and overflowing magnitudes are NOT established end to end',
                  'literals longer than the scanner bounds']
     c.run_jobs(nproc)
